@@ -168,6 +168,20 @@ impl<'a, 'tcx> D<'a, 'tcx> {
                 let v: Vec<String> = ps.iter().map(|p| self.pat(p)).collect();
                 format!("{{\"k\":\"or\",\"ps\":{}}}", arr(v))
             }
+            Slice(before, mid, after) => {
+                let b: Vec<String> = before.iter().map(|p| self.pat(p)).collect();
+                let a: Vec<String> = after.iter().map(|p| self.pat(p)).collect();
+                let m = match mid {
+                    Some(m) => self.pat(m),
+                    None => "null".into(),
+                };
+                format!(
+                    "{{\"k\":\"slice\",\"before\":{},\"mid\":{},\"after\":{}}}",
+                    arr(b),
+                    m,
+                    arr(a)
+                )
+            }
             _ => format!(
                 "{{\"k\":\"other\",\"dbg\":{}}}",
                 esc(&format!("{:?}", std::mem::discriminant(&p.kind)))
